@@ -156,6 +156,53 @@ pub fn run(tier: &str) -> i32 {
         rep.sub("kicker-first-spellings", "the 156 single rank-pair tokens written kicker first ('KAs', '27o') x 3 weights, as token and as range: the same combos as the high-card-first spelling (3,640 + 156 = the 3,796 well-formed tokens of the quantifier)", nrev * 2, 156, true, json!({}));
     }
 
+    // (a3) the expansion of a token is an iterator (a vec::IntoIter: double-ended, exact size): every way of
+    // consuming it gives the same combos
+    {
+        use espada::card::Rank;
+        use espada::hand_range::{HandRangeTokenKind, RankPair};
+        const R: [Rank; 13] = RANKS;
+        let mut kinds: Vec<(String, Box<dyn Fn() -> HandRangeTokenKind + Sync>)> = vec![];
+        for r in 0..13usize {
+            kinds.push((format!("single pocket {}", RANK_CHARS[r]), Box::new(move || HandRangeTokenKind::SingleRankPair(RankPair::Pocket(R[r])))));
+            kinds.push((format!("pocket {}+", RANK_CHARS[r]), Box::new(move || HandRangeTokenKind::BottomClosedRankPairRange(RankPair::Pocket(R[r])))));
+            for e in (r + 1)..13usize {
+                kinds.push((format!("pockets {}-{}", RANK_CHARS[r], RANK_CHARS[e]), Box::new(move || HandRangeTokenKind::DoubleClosedRankPairRange(RankPair::Pocket(R[r]), R[e]))));
+            }
+        }
+        for h in 0..12usize {
+            for k in (h + 1)..13usize {
+                let nm = format!("{}{}", RANK_CHARS[h], RANK_CHARS[k]);
+                kinds.push((format!("{}s", nm), Box::new(move || HandRangeTokenKind::SingleRankPair(RankPair::Suited(R[h], R[k])))));
+                kinds.push((format!("{}o", nm), Box::new(move || HandRangeTokenKind::SingleRankPair(RankPair::Ofsuit(R[h], R[k])))));
+                kinds.push((format!("{}s+", nm), Box::new(move || HandRangeTokenKind::BottomClosedRankPairRange(RankPair::Suited(R[h], R[k])))));
+                kinds.push((format!("{}o+", nm), Box::new(move || HandRangeTokenKind::BottomClosedRankPairRange(RankPair::Ofsuit(R[h], R[k])))));
+                for e in (k + 1)..13usize {
+                    if thorough || (h + k + e) % 3 == 0 {
+                        kinds.push((format!("{}s-{}", nm, RANK_CHARS[e]), Box::new(move || HandRangeTokenKind::DoubleClosedRankPairRange(RankPair::Suited(R[h], R[k]), R[e]))));
+                        kinds.push((format!("{}o-{}", nm, RANK_CHARS[e]), Box::new(move || HandRangeTokenKind::DoubleClosedRankPairRange(RankPair::Ofsuit(R[h], R[k]), R[e]))));
+                    }
+                }
+            }
+        }
+        for cb in all_combos().into_iter().step_by(97) {
+            kinds.push((format!("card pair {}", cb.text()), Box::new(move || HandRangeTokenKind::SingleCardPair(cb.card_pair()))));
+        }
+        let outs = par_map(kinds.len(), |i| {
+            let mk = &kinds[i].1;
+            catch(std::panic::AssertUnwindSafe(|| vlib::iterproto::check(|| HandRangeToken::new(mk(), 0.5).into_iter(), 3)))
+        });
+        for (i, o) in outs.into_iter().enumerate() {
+            let problem = match o {
+                Ok(None) => continue,
+                Ok(Some(p)) => json!(p),
+                Err(e) => json!({"panic": e}),
+            };
+            rep.violation(Violation { key: format!("token kind={} consumed as an iterator", kinds[i].0), sub: "expansion-protocol".into(), case: json!({"kind": kinds[i].0}), expected: json!("every way of consuming the expansion (front/back pulls, rev, nth, nth_back, count, last, len) agrees with plain forward iteration"), observed: problem });
+        }
+        rep.sub("expansion-protocol", "the expansion iterator of every token value constructible through HandRangeToken::new (spans: a third in quick): all front/back pull sequences of length <= 3 then drained either way, rev(), nth(k)/nth_back(k) for every k, count(), last(), len()/size_hint() before every pull - all agree with plain forward iteration", kinds.len() as u64, kinds.len() as u64, thorough, json!({}));
+    }
+
     // (b) ordered pairs of rank-pair tokens, two weights: later wins on the overlap
     let sub_ranks: Vec<char> = vec!['A', 'K', 'Q', 'J', '2'];
     let pool: Vec<&Tok> = if thorough { rpt.iter().collect() } else { rpt.iter().filter(|t| t.text.chars().all(|c| !RANK_CHARS.contains(&c) || sub_ranks.contains(&c))).collect() };
